@@ -1,6 +1,7 @@
 package main
 
 import (
+	"sort"
 	"strings"
 
 	"golang.org/x/tools/go/ssa"
@@ -31,6 +32,27 @@ func checkDeleteOrder(c *Ctx) {
 		}
 	}
 	isBucketT := func(v ssa.Value) bool { return strings.HasSuffix(v.Type().String(), ".LDBBucket") }
+	// helpers of the package the reference tree does not have that work on a bucket belong to the routine
+	// as well, also when the anchored function does not call them (a phase split made at the API level)
+	{
+		var extra []*ssa.Function
+		for fn := range gNewFuncs {
+			if fn == nil || fn.Parent() != nil || pkgOf(fn) != pkgLDB || inS[fn] || fn.Blocks == nil {
+				continue
+			}
+			for _, p := range fn.Params {
+				if isBucketT(p) {
+					extra = append(extra, fn)
+					break
+				}
+			}
+		}
+		sort.Slice(extra, func(i, j int) bool { return FuncName(extra[i]) < FuncName(extra[j]) })
+		for _, fn := range extra {
+			inS[fn] = true
+			S = append(S, fn)
+		}
+	}
 	ownParam := func(g *ssa.Function) *ssa.Parameter {
 		for _, p := range g.Params {
 			if isBucketT(p) {
@@ -173,8 +195,93 @@ func checkDeleteOrder(c *Ctx) {
 		})
 		return out
 	}
+	// callers of the routine outside its body (the DeleteBucket API) are looked at as well: two descents
+	// into the same sub-bucket are phases of that sub-bucket's activation
+	var frames []*ssa.Function
+	frames = append(frames, S...)
+	for fn := range c.AllFuncs {
+		if pkgOf(fn) != pkgLDB || inS[fn] || fn.Parent() != nil || fn.Blocks == nil {
+			continue
+		}
+		calls := false
+		allInstrsShallow(fn, func(in ssa.Instruction) {
+			if ci, ok := in.(ssa.CallInstruction); ok {
+				if h := ci.Common().StaticCallee(); h != nil && inS[h] {
+					calls = true
+				}
+			}
+		})
+		if calls {
+			frames = append(frames, fn)
+		}
+	}
+	sort.Slice(frames[len(S):], func(i, j int) bool { return FuncName(frames[len(S)+i]) < FuncName(frames[len(S)+j]) })
+	descentRoot := func(g *ssa.Function, ci ssa.CallInstruction) ssa.Value {
+		var root ssa.Value
+		for _, a := range ci.Common().Args {
+			if !isBucketT(a) {
+				continue
+			}
+			valueOriginsLocal(g, a, func(r ssa.Value) {
+				switch x := r.(type) {
+				case *ssa.Call:
+					if n := callName(x); n == "Bucket" || n == "subBucket" {
+						root = x
+					}
+				case *ssa.Extract:
+					if cl, ok := x.Tuple.(*ssa.Call); ok {
+						if n := callName(cl); n == "Bucket" || n == "subBucket" {
+							root = cl
+						}
+					}
+				}
+			})
+		}
+		return root
+	}
 	n := 0
-	for _, g := range S {
+	for _, g := range frames {
+		// phases of one sub-bucket's activation: an earlier call that unlinks below it, a later call that
+		// enumerates it
+		{
+			type dc struct {
+				in   ssa.Instruction
+				root ssa.Value
+				e    ev
+			}
+			var dcs []dc
+			allInstrsShallow(g, func(in ssa.Instruction) {
+				ci, ok := in.(ssa.CallInstruction)
+				if !ok {
+					return
+				}
+				h := ci.Common().StaticCallee()
+				if h == nil || !inS[h] || passes(g, ci) != "descent" {
+					return
+				}
+				root := descentRoot(g, ci)
+				if root == nil {
+					return
+				}
+				var agg ev
+				for _, se := range eventsOf(h, 3, map[*ssa.Function]bool{h: true}) {
+					agg.D = agg.D || se.D
+					agg.E = agg.E || se.E
+				}
+				dcs = append(dcs, dc{in, root, agg})
+			})
+			for _, a := range dcs {
+				for _, b := range dcs {
+					if a.in != b.in && a.root == b.root && a.e.D && b.e.E && reach(g, a.in, nil, nil)(b.in) {
+						n++
+						c.Bad(rule, FuncName(g)+":sub-bucket-phases-in-order", c.Pos(b.in.Pos()), "a sub-bucket's own sub-buckets are enumerated (second phase) after a first phase already unlinked them from the name index: the second phase finds none and the k/v of every bucket below survive the deletion")
+					}
+				}
+			}
+		}
+		if !inS[g] {
+			continue
+		}
 		evs := eventsOf(g, 3, map[*ssa.Function]bool{g: true})
 		key := FuncName(g) + ":sub-buckets-enumerated-before-any-is-unlinked"
 		bad := ""
